@@ -5,6 +5,7 @@ package main
 // no modelled component (unchecked assumption, reported).
 
 import (
+	"go/token"
 	"go/types"
 	"strings"
 
@@ -129,6 +130,16 @@ func (e *Eng) modsetInstr(in ssa.Instruction, caller *FuncSpec, visiting map[*ss
 		if rg, ok := x.Iter.(*ssa.Range); ok {
 			if mt, ok := rg.X.Type().Underlying().(*types.Map); ok {
 				out[e.regHeap("IT_"+shortTypeName(mt.Key()), "(Array Int (Array "+e.sorts.sortOf(mt.Key())+" Bool))", nil)] = true
+			}
+		}
+	case *ssa.UnOp:
+		if x.Op == token.ARROW {
+			out[e.regHeap("GH_recv", "(Array Int Int)", types.Typ[types.Int])] = true
+		}
+	case *ssa.Select:
+		for _, sc := range x.States {
+			if sc.Dir == types.RecvOnly {
+				out[e.regHeap("GH_recv", "(Array Int Int)", types.Typ[types.Int])] = true
 			}
 		}
 	case *ssa.Call:
